@@ -714,6 +714,38 @@ def rule_type_ptr(ctx, tu):
     ctx.floor(R, 2)
 
 
+def rule_own(ctx, py):
+    """C10.OWN -- what the engine object keeps from a set-up is its own: an attribute of self assigned in setup() from a parameter
+    holds a copy (`script.copy()`, deepcopy, a converted value), never the caller's object itself.  The fetch methods read the
+    output units, the state size and the script attached to the trajectory from that attribute; an alias of the caller's script
+    makes a second fetch return something else as soon as the caller touches his script."""
+    R = "C10.OWN"
+    c = py.cls("librdengine.LibRDEngine")
+    meths = {n.name: n for n in c.body if isinstance(n, ast.FunctionDef)}
+    f = meths.get("setup")
+    ctx.need(f is not None, R, "LibRDEngine.setup not found")
+    ps = set(pyfe.params(f)) - {"self"}
+    n = 0
+    for st in ast.walk(f):
+        if isinstance(st, ast.Assign) and any(isinstance(t, ast.Attribute) and isinstance(t.value, ast.Name) and t.value.id == "self"
+                                              for t in st.targets):
+            v = st.value
+            # the parameter itself, or an attribute chain of it (script.system): the caller's object
+            root = v
+            while isinstance(root, ast.Attribute):
+                root = root.value
+            mentions = {x.id for x in ast.walk(v) if isinstance(x, ast.Name)} & ps
+            if not mentions:
+                continue
+            n += 1
+            bare = isinstance(root, ast.Name) and root.id in ps and isinstance(v, (ast.Name, ast.Attribute))
+            ctx.check(not bare, R, st, f._qual if hasattr(f, "_qual") else "librdengine.LibRDEngine.setup", pyfe.src(st)[:70],
+                      "a copy / a value computed from the argument", "`%s` keeps the caller's own object: a later change of it "
+                      "by the caller changes what get_output() returns for this set-up (units, state size, attached script)"
+                      % pyfe.src(st)[:60])
+    ctx.floor(R, 1)
+
+
 def run(ctx):
     tu = ctx.cx
     eff = cxa.Effects(tu)
@@ -726,6 +758,7 @@ def run(ctx):
     rule_isolation(ctx, tu, eff)
     rule_reset(ctx, ctx.py)
     rule_release(ctx, ctx.py)
+    rule_own(ctx, ctx.py)
     rule_status(ctx, tu, ctx.py)
     rule_progress(ctx, tu, eff)
     rule_type_ptr(ctx, tu)
